@@ -177,4 +177,186 @@ theorem PCM_unpack_total (t : Packet) (buf : Bytes) (ex : Bool) : (Packet.unpack
     | [] => simp
     | _ :: _ :: _ => simp
 
+/-! ### review additions (rev1-C08): the progress bound "PCM ≥ 10 or error" of DESIGN §5 stated, a packet-level
+    work bound, joint witnesses -/
+
+/-- [review] a packed-mode frame object (time stamp, not throughput) only decodes a slice that holds the 8-byte
+    time stamp and the 2- or 4-byte data header: at least 10 bytes -/
+theorem PCMFrame_unpack_ok_len (t : Frame) (buf : Bytes) (ex : Bool) (hi : t.ipts ≠ .none) (ht : t.throughput = false)
+    (h : (Frame.unpack t buf ex).2 = .ok ()) : 10 ≤ buf.length := by
+  simp only [Frame.unpack, hi, if_false, ht, Bool.false_eq_true] at h
+  cases h1 : t.ipts.unpack (buf.take 8) with
+  | error e => simp [h1] at h
+  | ok i =>
+    have h8 : 8 ≤ buf.length := by
+      cases hti : t.ipts with
+      | none => exact absurd hti hi
+      | rtc c =>
+        rw [hti] at h1
+        simp only [Ipts.unpack] at h1
+        cases hs : structUnpack Acra.Gen.Ch11PayTs.RTC_unpack_fmt0 (buf.take 8) with
+        | error e => simp [hs] at h1
+        | ok v =>
+          have := structUnpack_ok_length _ _ _ hs
+          simp [Acra.Gen.Ch11PayTs.RTC_unpack_fmt0, Fmt.size, codesSize, Code.size] at this
+          omega
+      | ptp s n =>
+        rw [hti] at h1
+        simp only [Ipts.unpack] at h1
+        cases hs : structUnpack Acra.Gen.Ch11PayTs.PTP_unpack_fmt0 (buf.take 8) with
+        | error e => simp [hs] at h1
+        | ok v =>
+          have := structUnpack_ok_length _ _ _ hs
+          simp [Acra.Gen.Ch11PayTs.PTP_unpack_fmt0, Fmt.size, codesSize, Code.size] at this
+          omega
+    simp only [h1] at h
+    cases h2 : hdrFmt t.alignment with
+    | error e => simp [h2] at h
+    | ok fh =>
+      obtain ⟨fmt, hl⟩ := fh
+      simp only [h2] at h
+      cases h3 : structUnpackFrom fmt buf 8 with
+      | error e => simp [h3] at h
+      | ok v =>
+        have hlen := structUnpackFrom_ok_length _ _ _ _ h3
+        simp only [hdrFmt] at h2
+        split at h2
+        · simp only [Except.ok.injEq, Prod.mk.injEq] at h2
+          obtain ⟨rfl, _⟩ := h2
+          simp only [DATA_HEADER_FORMAT_16, Fmt.size, codesSize, Code.size] at hlen
+          omega
+        · split at h2
+          · simp only [Except.ok.injEq, Prod.mk.injEq] at h2
+            obtain ⟨rfl, _⟩ := h2
+            simp only [DATA_HEADER_FORMAT_32, Fmt.size, codesSize, Code.size] at hlen
+            omega
+          · simp at h2
+
+/-- [review] hence every iteration of the packed-mode loop that yields a frame has `req ≥ 10`, and the frames
+    fit side by side in the buffer -/
+theorem decFrames_items_stride (proto : Frame) (ex : Bool) (req : Nat) (buf : Bytes) (hp : proto.ipts ≠ .none)
+    (ht : proto.throughput = false) (fuel off : Nat) (fs : List Frame)
+    (h : decFrames proto ex req buf fuel off = .ok fs) :
+    fs.length * 10 ≤ buf.length - off ∧ fs.length * req ≤ buf.length - off := by
+  induction fuel generalizing off fs with
+  | zero => simp [decFrames] at h
+  | succ fuel ih =>
+    unfold decFrames at h
+    split at h
+    · rename_i hle
+      cases hu : Frame.unpack proto (slice buf off (off + req)) ex with
+      | mk f r =>
+        cases r with
+        | error e => simp [hu] at h
+        | ok u =>
+          rw [hu] at h
+          dsimp only at h
+          have hreq : 10 ≤ req := by
+            have := PCMFrame_unpack_ok_len proto (slice buf off (off + req)) ex hp ht (by rw [hu])
+            simp only [slice_length] at this
+            omega
+          cases hr : decFrames proto ex req buf fuel (off + req + (if req % 2 != 0 then 1 else 0)) with
+          | error e => rw [hr] at h; simp at h
+          | ok gs =>
+            rw [hr] at h
+            simp only [Except.ok.injEq] at h
+            subst h
+            have := ih _ gs hr
+            simp only [List.length_cons, Nat.succ_mul]
+            constructor <;> omega
+    · simp at h; subst h; simp
+
+/-- [review] packet-level work bound (missing before: only the inner loop had one): an accepted buffer yields
+    one frame in throughput mode, at most `(|buf| − 4)/10` in packed mode -/
+theorem PCM_items_le (t : Packet) (buf : Bytes) (ex : Bool) (h : (Packet.unpack t buf ex).2 = .ok ()) :
+    (Packet.unpack t buf ex).1.minor_frames.length * 10 ≤ buf.length + 6 ∧
+    (Packet.unpack t buf ex).1.minor_frames.length ≤ buf.length := by
+  revert h
+  simp only [Packet.unpack]
+  cases hc : structUnpackFrom PCM_unpack_fmt0 buf 0 with
+  | error e => simp
+  | ok v =>
+    have h4 := structUnpackFrom_ok_length _ _ _ _ hc
+    simp only [PCM_unpack_fmt0, Fmt.size, codesSize, Code.size] at h4
+    match v with
+    | [csw] =>
+      simp only
+      split
+      · split
+        · intro _; simp only [List.length_singleton]; omega
+        · simp
+      · cases ha : t.assigned with
+        | some n =>
+          simp only
+          split
+          · rename_i fs hfs
+            intro _
+            have := decFrames_items_stride _ _ _ _ (fresh_ipts_ne_none _ _) rfl _ _ _ hfs
+            simp only; omega
+          · simp
+        | none =>
+          simp only
+          cases hdet : detect t buf (if csw / MODE_ALIGNMENT % 2 = ALIGN_16b then DATA_HEADER_LEN_16 else DATA_HEADER_LEN_32) with
+          | error e => simp
+          | ok d =>
+            simp only
+            split
+            · rename_i fs hfs
+              intro _
+              have := decFrames_items_stride _ _ _ _ (fresh_ipts_ne_none _ _) rfl _ _ _ hfs
+              simp only; omega
+            · simp
+    | [] => simp
+    | _ :: _ :: _ => simp
+
+/-- [review] witness: packed mode, 32-bit alignment, PTP stamps, two minor frames of 3 data bytes (+1 fill) -/
+def wPCM : Bytes :=
+  [0, 0, 32, 0,  8, 0, 0, 0, 7, 0, 0, 0, 255, 255, 255, 255, 1, 2, 3, 0,  10, 0, 0, 0, 9, 0, 0, 0, 5, 0, 0, 0, 4, 5, 6, 0]
+
+example : (Packet.unpack (Packet.fresh (some 1) Option.none (some 3)) wPCM false).2 = .ok () ∧
+    (Packet.unpack (Packet.fresh (some 1) Option.none (some 3)) wPCM false).1.minor_frames.map (fun f => (f.ipts, f.hdr, f.data)) =
+      [(.ptp 7 8, some 0xFFFFFFFF, [1, 2, 3]), (.ptp 9 10, some 5, [4, 5, 6])] := ⟨by rfl, by rfl⟩
+-- joint witness for `decFrames_fuel_sufficient`, `decFrames_items_le`, `decFrames_items_stride`: req = 3 + 8 + 4 = 15
+example : (Frame.fresh (some 1) false 1).ipts ≠ .none ∧ (Frame.fresh (some 1) false 1).throughput = false ∧
+    wPCM.length - 4 + 1 ≤ 37 ∧
+    (decFrames (Frame.fresh (some 1) false 1) false 15 wPCM 37 4).map List.length = .ok 2 :=
+  ⟨fresh_ipts_ne_none _ _, rfl, by decide, by rfl⟩
+example : (Frame.unpack (Frame.fresh (some 1) false 1) (slice wPCM 4 19) false).2 = .ok () := by rfl
+-- `PCMFrame_unpack_nil`: a prototype with a time stamp
+example : (Frame.fresh Option.none false 0).ipts ≠ .none := fresh_ipts_ne_none _ _
+-- `detect_nofuel` (no hypothesis besides its arguments): size detection from two sync words
+example : detect (Packet.fresh (some 1) (some 0x01020300) Option.none)
+    [0, 0, 32, 0, 9, 9, 9, 9, 9, 9, 9, 9, 9, 9, 9, 9, 1, 2, 3, 0, 9, 9, 9, 9, 9, 9, 9, 9, 9, 9, 9, 9, 1, 2, 3, 0] 4 = .ok 4 := by rfl
+/-! ### review additions (rev1-C08): outcome lists — the element decoders have no loop and no fuel in their models, so
+    `≠ .error .fuel` holds by construction; what C08 says about them is which ordinary exceptions can occur -/
+
+theorem PCMFrame_unpack_outcomes (t : Frame) (buf : Bytes) (ex : Bool) :
+    (Frame.unpack t buf ex).2 = .ok () ∨ (Frame.unpack t buf ex).2 = .error .struct ∨
+    (Frame.unpack t buf ex).2 = .error .attribute ∨ (Frame.unpack t buf ex).2 = .error .key := by
+  simp only [Frame.unpack]
+  have hi := Ipts_unpack_outcomes t.ipts (buf.take 8)
+  cases h1 : (if t.ipts = .none then (.ok Ipts.none : R Ipts) else t.ipts.unpack (buf.take 8)) with
+  | error e =>
+    split at h1
+    · simp at h1
+    · rw [h1] at hi
+      simp only [reduceCtorEq, exists_false, false_or, Except.error.injEq] at hi ⊢
+      rcases hi with h | h <;> simp [h]
+  | ok i =>
+    simp only
+    split
+    · simp
+    · cases h2 : hdrFmt t.alignment with
+      | error e =>
+        simp only [hdrFmt] at h2
+        repeat' split at h2
+        all_goals simp at h2
+        subst h2; simp
+      | ok fh =>
+        obtain ⟨fmt, hl⟩ := fh
+        simp only
+        repeat' split
+        all_goals first
+          | (simp; done)
+          | (rename_i e h; have := structUnpackFrom_error _ _ _ _ h; subst this; simp)
 end Acra.Props.C08
